@@ -83,7 +83,8 @@ type ExportConfig struct {
 	// IncludeHeader includes header row in CSV/TSV exports
 	IncludeHeader bool
 
-	// PrettyPrint enables pretty printing for JSON formats
+	// PrettyPrint enables pretty printing for the JSON format
+	// (JSON Lines always keeps one object per line)
 	PrettyPrint bool
 
 	// TextColumnName specifies the column name for text content
@@ -371,10 +372,9 @@ func flattenMetadata(data map[string]interface{}, prefix string) map[string]inte
 
 // exportJSONL exports chunks as JSON Lines (one JSON object per line)
 func (e *Exporter) exportJSONL(chunks []*Chunk, w io.Writer) error {
+	// PrettyPrint does not apply here: the format is one object per line,
+	// an indented object would span several lines and break line-based readers
 	encoder := json.NewEncoder(w)
-	if e.config.PrettyPrint {
-		encoder.SetIndent("", "  ")
-	}
 
 	for i, chunk := range chunks {
 		exported := e.prepareChunkForExport(chunk, i)
